@@ -23,3 +23,36 @@ Definition any_on_list (w : world) (t : nat) (c : nat) (nobj : nat) : bool :=
 Definition done_of (w : world) (t : nat) : nat := done (thr w t).
 Definition idx_ready_of (w : world) (t : nat) : bool := f_idx_ready (fr (thr w t)).
 Definition dl_seen_of (w : world) (t : nat) : bool := f_dl_seen (fr (thr w t)).
+(* ---------- footprint comparison (C13): boolean forms of the statement vocabulary of WaitNModel (in_call, heap_freed, rec_dead),
+   evaluated by the replayer at the trace position of every atomic access of the implementation to an nsync_waiter_s record ---------- *)
+Definition count_of (w : world) (t : nat) : nat := count (thr w t).
+Definition in_call_b (w : world) (t : nat) : bool :=
+  match pc_ (thr w t) with PIdle | PWake | PWakeV _ | PPanic => false | _ => true end.
+Definition heap_freed_b (w : world) (t : nat) : bool :=
+  (nw_set_len <? count (thr w t))%nat && match pc_ (thr w t) with PLock | PRet => true | _ => false end.
+Definition rec_dead_b (w : world) (r : rid) : bool :=
+  let s := thr w (owner r) in
+  (rcall r <? done s)%nat || ((rcall r =? done s)%nat && heap_freed_b w (owner r)).
+
+(* the mutex clause of C11: the ghosts of the running call and whether the caller is the model's holder of the mutex it passed *)
+Definition has_mu (w : world) (t : nat) : bool := match f_mu (fr (thr w t)) with Some _ => true | None => false end.
+Definition held_of (w : world) (t : nat) : bool := f_held (fr (thr w t)).
+Definition unlocked_of (w : world) (t : nat) : bool := f_unlocked (fr (thr w t)).
+Definition holder_is (w : world) (t : nat) : bool := holds w (f_mu (fr (thr w t))) t.
+
+Lemma in_call_b_spec : forall w t, in_call_b w t = true <-> in_call (thr w t).
+Proof.
+  intros w t. unfold in_call_b, in_call. destruct (pc_ (thr w t)); split; intro H; try discriminate H; try contradiction; auto.
+Qed.
+Lemma heap_freed_b_spec : forall w t, heap_freed_b w t = true <-> heap_freed (thr w t).
+Proof.
+  intros w t. unfold heap_freed_b, heap_freed. rewrite Bool.andb_true_iff, Nat.ltb_lt.
+  split; intros [H1 H2]; split; auto.
+  - destruct (pc_ (thr w t)); try discriminate H2; auto.
+  - destruct H2 as [H2 | H2]; rewrite H2; reflexivity.
+Qed.
+Lemma rec_dead_b_spec : forall w r, rec_dead_b w r = true <-> rec_dead w r.
+Proof.
+  intros w r. unfold rec_dead_b, rec_dead. cbv zeta.
+  rewrite Bool.orb_true_iff, Bool.andb_true_iff, Nat.ltb_lt, Nat.eqb_eq, heap_freed_b_spec. reflexivity.
+Qed.
